@@ -419,7 +419,10 @@ func (t *thread) Step() (bool, error) {
 	// script, maximum script element sizes, and conditionals.
 	if err := t.executeOpcode(opcode); err != nil {
 		if ok := errs.IsErrorCode(err, errs.ErrOK); ok {
-			// If returned early, move onto the next script
+			// If returned early, move onto the next script; as at the normal end of
+			// a script, the alt stack and the code separator position do not carry over
+			_ = t.astack.DropN(t.astack.Depth())
+			t.lastCodeSep = 0
 			t.shiftScript()
 			return t.scriptIdx >= len(t.scripts), nil
 		}
